@@ -36,9 +36,9 @@ C["C01"] = dict(level="other",
  rule="one case = one feasible path (environment choices x scheduling decisions x symbolic branches); non-trivial = needed a solver query or a scheduling decision",
  assumptions=COMMON_ASSUME + ["funcs (reflection) replaced by a model rebuilt from go/types of the registered service", "body codec = aliasing bytes codec (decoded value aliases its input like BYTES/pb/code)"],
  stubs=["zzMsgs (socket.Messages)", "funcs model", "zzBytesCodec (body codec)", "hslam/log (empty bodies)"],
- bounds={"calls per connection": "quick 2, thorough 3", "payload": "1 symbolic byte per call (client), 1 or 10 bytes (server)", "initial sequence number": "quick 0; thorough: any 64-bit value (symbolic)", "framing": "2 frames, payloads 0..2 and 1..2 bytes, every chunking of the stream", "schedules": SCHED, "pool policy": "sync.Pool LIFO reuse (maximal aliasing)"},
+ bounds={"calls per connection": "quick 2, thorough 3", "payload": "1 symbolic byte per call (client), 1 or 10 bytes (server)", "initial sequence number": "quick 0; thorough: any 64-bit value (symbolic)", "framing": "2 frames, payloads 0..2 and 1..2 bytes, every chunking of the stream", "schedules": SCHED + "; gran 3 (SRVw only) = preemption before every call of a function with a body", "pool policy": "sync.Pool LIFO reuse (maximal aliasing)"},
  outside=["TCP itself, the auto-batching writer of hslam/writer", "more outstanding calls than the bound", "Transport/Client wrappers (address routing is C14/C16)", "payloads larger than the stated sizes (header codecs at all boundaries: C07)"],
- runs={"quick": [run("CLI", labels=CLI_C01), run("CLIb", labels=CLI_C01), run("SRV", labels=SRV_C01), run("SRV", params={"srv.nocopy": 1, "srv.N": 3, "srv.kinds": 2, "srv.arglens": 1, "srv.concrete": 1, "srv.bufsizes": 2}, labels=SRV_C01), run("SRVn", labels=SRV_C01 + ["one-response-per-request"]), run("STR2", labels=["unary-call-unaffected-by-streams", "messages-in-order-unmodified", "all-messages-delivered"]), run("FRAM")],
+ runs={"quick": [run("CLI", labels=CLI_C01), run("CLIb", labels=CLI_C01), run("SRV", labels=SRV_C01), run("SRV", params={"srv.nocopy": 1, "srv.N": 3, "srv.kinds": 2, "srv.arglens": 1, "srv.concrete": 1, "srv.bufsizes": 2}, labels=SRV_C01), run("SRVn", labels=SRV_C01 + ["one-response-per-request"]), run("STR2", labels=["unary-call-unaffected-by-streams", "messages-in-order-unmodified", "all-messages-delivered"]), run("SRVw", P=1, gran=3), run("FRAM")],
        "thorough": [run("SRVn", params={"srvn.full": 1}, labels=SRV_C01 + ["one-response-per-request"], budget=1500), run("CLI", params={"cli.K": 3}, labels=CLI_C01, budget=900), run("CLI", params={"cli.symseq": 1}, labels=CLI_C01, budget=900), run("SRV", params={"srv.N": 3, "srv.kinds": 3, "srv.arglens": 1, "srv.bufsizes": 1}, labels=SRV_C01, budget=1200), run("SRV", params={"srv.nocopy": 1, "srv.N": 3, "srv.kinds": 3, "srv.arglens": 1, "srv.bufsizes": 2}, labels=SRV_C01, budget=1500), run("CLIb", params={"clib.K": 4}, labels=CLI_C01, budget=1200), run("FRAM")]})
 
 C["C02"] = dict(level="other",
@@ -67,7 +67,7 @@ C["C04"] = dict(level="other",
  stubs=["zzMsgs", "funcs model", "zzBytesCodec", "hslam/log"],
  bounds={"requests": "quick 2, thorough 3", "args": "1 or 10 symbolic bytes", "modes": "pipelining x directIO x shared x bufsize{8,64}", "schedules": SCHED},
  outside=["handler bodies and reflection internals", "poll mode (C05 SRVp and stream harnesses only)", "Client.Call never retries: covered through the CLT harness's one-roundtrip-per-call label under C16"],
- runs={"quick": [run("SRV", params={"srv.kinds": 8}, labels=SRV_C04 + ["rejected-request-not-answered"]), run("SRV", params={"srv.N": 3, "srv.kinds": 3, "srv.menu": 1}, labels=SRV_C04 + ["rejected-request-not-answered", "panic"]), run("SRVn", labels=["reply-of-own-args", "one-response-per-request"]), run("TRretry")], "thorough": [run("SRVn", params={"srvn.full": 1}, labels=["reply-of-own-args", "one-response-per-request"], budget=1500), run("SRV", params={"srv.N": 3, "srv.kinds": 8, "srv.arglens": 1, "srv.bufsizes": 1}, labels=SRV_C04 + ["rejected-request-not-answered"], budget=3000), run("TRretry"), run("TRretry", P=1, gran=1)]})
+ runs={"quick": [run("SRV", params={"srv.kinds": 8}, labels=SRV_C04 + ["rejected-request-not-answered"]), run("SRV", params={"srv.N": 3, "srv.kinds": 3, "srv.menu": 1}, labels=SRV_C04 + ["rejected-request-not-answered", "panic"]), run("SRVn", labels=["reply-of-own-args", "one-response-per-request"]), run("SRVw", P=1, gran=3), run("TRretry")], "thorough": [run("SRVn", params={"srvn.full": 1}, labels=["reply-of-own-args", "one-response-per-request"], budget=1500), run("SRV", params={"srv.N": 3, "srv.kinds": 8, "srv.arglens": 1, "srv.bufsizes": 1}, labels=SRV_C04 + ["rejected-request-not-answered"], budget=3000), run("TRretry"), run("TRretry", P=1, gran=1)]})
 
 C["C05"] = dict(level="other",
  explanation="Server: SRV harness with pipelining on and handlers that yield in the middle: executions never overlap, execution order and response order (pings excepted: they are not executed and may be answered by the decode worker) equal arrival order. Client: CLI harness with SetPipelining: calls issued by one goroutine on a shared Done channel must be signalled in issue order for every mix of success and server-reported error.",
@@ -76,7 +76,7 @@ C["C05"] = dict(level="other",
  stubs=["zzMsgs", "funcs model", "zzBytesCodec"],
  bounds={"requests / calls": "2 (thorough 3)", "schedules": SCHED},
  outside=["ping responses relative to call responses", "write failures / connection loss in the client order (C02 harness covers completion, not order)"],
- runs={"quick": [run("SRV", params={"srv.pipelining": 1}, labels=SRV_C05), run("CLI", labels=["pipelined-completion-order"]), run("SRVp", labels=SRV_C05 + ["one-response-per-request", "no-extra-or-missing-execution"]), run("SRVp", P=1, gran=1, labels=SRV_C05 + ["one-response-per-request", "no-extra-or-missing-execution"], budget=300), run("SRVp2")],
+ runs={"quick": [run("SRV", params={"srv.pipelining": 1}, labels=SRV_C05), run("CLI", params={"cli.forms": 2}, labels=["pipelined-completion-order", "pipelined-wire-order"]), run("SRVp", labels=SRV_C05 + ["one-response-per-request", "no-extra-or-missing-execution"]), run("SRVp", P=1, gran=1, labels=SRV_C05 + ["one-response-per-request", "no-extra-or-missing-execution"], budget=300), run("SRVp2")],
        "thorough": [run("SRV", params={"srv.pipelining": 1, "srv.N": 3, "srv.kinds": 6, "srv.arglens": 1, "srv.bufsizes": 1}, labels=SRV_C05, budget=1500), run("CLI", params={"cli.K": 3}, labels=["pipelined-completion-order"], budget=900), run("SRVp", P=2, gran=1, params={"srv.N": 2}, labels=SRV_C05 + ["one-response-per-request", "no-extra-or-missing-execution"], budget=1500), run("SRVp", P=1, gran=1, params={"srv.N": 3, "srvp.yield": 1}, labels=SRV_C05 + ["one-response-per-request", "no-extra-or-missing-execution"], budget=1500)]})
 
 C["C06"] = dict(level="other",
@@ -86,7 +86,7 @@ C["C06"] = dict(level="other",
  stubs=["zzMsgs", "funcs model", "zzBytesCodec"],
  bounds={"calls": "2 (thorough 3)", "schedules": SCHED, "pool policy": "LIFO reuse"},
  outside=["json header (copies strings)", "reply marshal errors"],
- runs={"quick": [run("CLI", params={"cli.encoders": 3}, labels=["error-text-of-own-call", "reply-untouched-on-error", "no-error", "reply-of-own-args"]), run("SRV", params={"srv.kinds": 7}, labels=SRV_C06), run("SRV", params={"srv.kinds": 3, "srv.menu": 2, "srv.encoders": 3, "srv.concrete": 1}, labels=SRV_C06 + ["unencodable-reply-text"]), run("C06w"), run("C06x")],
+ runs={"quick": [run("CLI", params={"cli.encoders": 3}, labels=["error-text-of-own-call", "reply-untouched-on-error", "no-error", "reply-of-own-args"]), run("SRV", params={"srv.kinds": 7}, labels=SRV_C06), run("SRV", params={"srv.kinds": 3, "srv.menu": 2, "srv.encoders": 3, "srv.concrete": 1}, labels=SRV_C06 + ["unencodable-reply-text"]), run("C06w"), run("C06x"), run("STRs", params={"str.W": 2, "str.R": 1}, labels=["unary-call-unaffected-by-streams", "pushes-written", "pushes-in-order-unmodified"])],
        "thorough": [run("CLI", params={"cli.K": 3}, labels=["error-text-of-own-call", "reply-untouched-on-error", "no-error", "reply-of-own-args"], budget=900), run("SRV", params={"srv.kinds": 7, "srv.N": 3, "srv.arglens": 1, "srv.bufsizes": 1}, labels=SRV_C06, budget=2400), run("C06w"), run("C06x"), run("C06x", P=1, gran=1, budget=900)]})
 
 C["C07"] = dict(level="other",
@@ -117,7 +117,7 @@ C["C09"] = dict(level="other",
  stubs=["zzMsgs", "stub listener/socket for Server.listen", "funcs model", "zzBytesCodec"],
  bounds={"streams": "1", "messages per direction": "client harness 2 (thorough 3); server harness 1 (thorough 2)", "schedules": SCHED},
  outside=["several streams on one connection", "interleaving with unary calls beyond the one made after close"],
- runs={"quick": [run("STR2", labels=["all-messages-delivered", "messages-in-order-unmodified", "stream-opened", "unary-call-unaffected-by-streams"]), run("STRc", labels=["all-messages-delivered", "message-after-failed-write-delivered", "messages-in-order-unmodified", "stream-opened", "open-request-flags"]), run("STRs", params={"str.W": 2, "str.R": 2}, labels=["handler-received-every-message", "handler-messages-in-order-unmodified", "pushes-written", "pushes-in-order-unmodified", "ack-precedes-first-push"])],
+ runs={"quick": [run("STR2", labels=["all-messages-delivered", "messages-in-order-unmodified", "stream-opened", "unary-call-unaffected-by-streams"]), run("STRc", labels=["all-messages-delivered", "message-after-failed-write-delivered", "messages-in-order-unmodified", "stream-opened", "open-request-flags"]), run("STRs", params={"str.W": 2, "str.R": 2}, labels=["handler-received-every-message", "handler-messages-in-order-unmodified", "pushes-written", "pushes-in-order-unmodified", "ack-precedes-first-push", "unary-call-unaffected-by-streams"])],
        "thorough": [run("STRc", params={"str.N": 3}, labels=["all-messages-delivered", "message-after-failed-write-delivered", "messages-in-order-unmodified", "stream-opened", "open-request-flags"]), run("STRs", params={"str.W": 2, "str.R": 2}, labels=["handler-received-every-message", "handler-messages-in-order-unmodified", "pushes-written", "pushes-in-order-unmodified", "ack-precedes-first-push"], budget=900)]})
 
 C["C10"] = dict(level="other",
